@@ -5,5 +5,6 @@ def main (args : List String) : IO UInt32 := do
   | ["lambda"] => Oracle.serve Oracle.Cluster2.handleLambda; return 0
   | ["nodedown"] => Oracle.serve Oracle.Cluster2.NDO.handle; return 0
   | ["refinv"] => Oracle.serve Oracle.Cluster2.RIO.handle; return 0
+  | ["status"] => Oracle.serve Oracle.Cluster2.DSO.handle; return 0
   | ["crash"] => Oracle.serve Oracle.Cluster2.handleCrash; return 0
   | _ => IO.eprintln "usage: oracle_cluster2 crash|lambda|nodedown|refinv|status"; return 2
